@@ -16,7 +16,7 @@ func c14(x *Ctx) {
 	c.NotCovered = "the classification regexps of IsLegacyAPIKey against real key formats (string contents)."
 	const nDet = "(config.Config).DetermineSamplerKey"
 	fromDet := func(v ssa.Value) bool {
-		_, ok := eng.Derives(v, func(w ssa.Value) bool { return isCallValue(w, nDet) }, eng.FlowOpts{})
+		_, ok := eng.Derives(v, func(w ssa.Value) bool { return isCallValue(w, nDet) }, eng.FlowOpts{Callers: func(p *ssa.Parameter) []ssa.Value { return x.callerArgs(p.Parent(), p) }})
 		return ok
 	}
 	// ---- key provenance at lookups ------------------------------------------------------
